@@ -38,6 +38,7 @@ type dbState struct {
 	recording bool
 	rs        *resultSet
 	queryErr  bool
+	cancel    func() // when set, the failing call cancels the context instead of returning a driver error
 }
 
 var errInjected = errors.New("injected driver fault")
@@ -49,6 +50,9 @@ func (s *dbState) record(kind, text string, args []driver.NamedValue) bool {
 		return true
 	}
 	ok := s.idx != s.failAt
+	if !ok && s.cancel != nil {
+		s.cancel()
+	}
 	s.idx++
 	vals := make([]any, len(args))
 	for i, a := range args {
